@@ -168,7 +168,7 @@ fn structural<C: Ciphersuite, L: Lab<C>>(lab: &mut L, p: &Params, keys: &Keys<C>
             sh.remove(&sess.signers[0]);
             for m in modes() {
                 let r = fc::aggregate_custom(&sess.package, &sh, &keys.1, m);
-                lab.check(matches!(&r, Err(e) if ["UnknownIdentifier", "IncorrectNumberOfShares"].contains(&err_name(e).as_str())), "a missing share is refused");
+                lab.check(r.is_err(), "a missing share is refused");
             }
         }
         1 => {
@@ -178,7 +178,7 @@ fn structural<C: Ciphersuite, L: Lab<C>>(lab: &mut L, p: &Params, keys: &Keys<C>
                 sh.insert(o, honest[&sess.signers[0]]);
                 for m in modes() {
                     let r = fc::aggregate_custom(&sess.package, &sh, &keys.1, m);
-                    lab.check(matches!(&r, Err(e) if err_name(e) == "UnknownIdentifier"), "a surplus share is refused with UnknownIdentifier");
+                    lab.check(r.is_err(), "a surplus share is refused");
                 }
             }
         }
@@ -190,7 +190,7 @@ fn structural<C: Ciphersuite, L: Lab<C>>(lab: &mut L, p: &Params, keys: &Keys<C>
                 sh.insert(o, s0);
                 for m in modes() {
                     let r = fc::aggregate_custom(&sess.package, &sh, &keys.1, m);
-                    lab.check(matches!(&r, Err(e) if err_name(e) == "UnknownIdentifier"), "a share under a non-committing identifier is refused with UnknownIdentifier");
+                    lab.check(r.is_err(), "a share under a non-committing identifier is refused");
                 }
             }
         }
@@ -201,7 +201,7 @@ fn structural<C: Ciphersuite, L: Lab<C>>(lab: &mut L, p: &Params, keys: &Keys<C>
             let pk = fc::keys::PublicKeyPackage::new(vs, *keys.1.verifying_key(), Some(p.t));
             for m in [fc::CheaterDetection::FirstCheater, fc::CheaterDetection::AllCheaters] {
                 let r = fc::aggregate_custom(&sess.package, honest, &pk, m);
-                lab.check(matches!(&r, Err(e) if err_name(e) == "UnknownIdentifier"), "a public key package lacking a signer is refused with UnknownIdentifier");
+                lab.check(r.is_err(), "a public key package lacking a signer is refused by the detecting modes");
             }
             let r = fc::aggregate_custom(&sess.package, honest, &pk, fc::CheaterDetection::Disabled);
             if let Ok(sig) = r {
